@@ -1340,8 +1340,13 @@ def _part_d(ck, tier, seed, info):
             for i in range(0, t.size, 20):
                 if std[i] < 1e-8:
                     continue
+                # single-row prediction, exactly as compute_acq_with_gradient obtains it (the batched prediction above
+                # differs from it by round-off of the linear algebra, which |u| amplifies)
+                p1 = predictor.predict(inputs[i].copy().reshape((1, -1)))[0]
+                m1 = float(np.asarray(p1["mean"], dtype=float).reshape(-1)[0])
+                s1 = float(np.asarray(p1["std"], dtype=float).reshape(-1)[0])
                 v, _ = acq.compute_acq_with_gradient(inputs[i].copy())
-                _tail_check(ck, st, float(v), best, mean[i], std[i], jitter, {"component": "ei-tail", "entry": "EIAcquisitionFunction.compute_acq_with_gradient", "configuration": cfg, "input": _lst(inputs[i])})
+                _tail_check(ck, st, float(v), best, m1, s1, jitter, {"component": "ei-tail", "entry": "EIAcquisitionFunction.compute_acq_with_gradient", "configuration": cfg, "input": _lst(inputs[i])})
     if st.n_deep == 0 or not (st.u_lo <= TAIL_U_MIN + 0.01 and st.u_hi >= TAIL_U_MAX - 0.01):
         raise RuntimeError("C09 monitor: EI tail scan does not cover u in [%g, %g]" % (TAIL_U_MIN, TAIL_U_MAX))
     prev = info.get("D-stats")
